@@ -147,6 +147,15 @@ def execute(plan: dict, ch: Chooser) -> dict:
         rec = {"AccessoryPairingID": "aa:bb:cc:dd:ee:16", "AccessoryLTPK": ident.ltpk.hex(), "iOSPairingId": "ios-1", "iOSDeviceLTSK": ios_ltsk.hex(),
                "iOSDeviceLTPK": RC.ed_pub(ios_ltsk).hex(), "Connection": "BLE", "AccessoryAddress": "00:11:22:33:44:16"}
         p = c.load_pairing("alias", rec)
+        decoded_sigs: dict[int, dict] = {}
+        orig_read_sig = p._read_signature
+
+        async def read_sig_spy(char, op_code, iid, tlv_struct):  # harness-side view of what the signature structs decoded to
+            out = await orig_read_sig(char, op_code, iid, tlv_struct)
+            decoded_sigs[iid] = dict(out)
+            return out
+
+        p._read_signature = read_sig_spy
         try:
             await p.list_accessories_and_characteristics()
         except Exception as e:  # noqa: BLE001
@@ -193,9 +202,20 @@ def execute(plan: dict, ch: Chooser) -> dict:
                 want.pop("unit", None) if "unit" in want and "unit" not in got and False else None
                 if ch_.uuid == ba.CH_IDENTIFY:
                     want["format"] = "bool"
+                # the decoded signature struct itself (what Characteristic.decode(...).to_dict() returned): unit included
+                dec = decoded_sigs.get(ch_.iid)
+                if dec is not None and ch_.uuid != ba.CH_IDENTIFY:
+                    ctx.obligations += 1
+                    ctx.probe("signature_structs_compared")
+                    if (dec.get("unit") or None) != (ch_.unit or None):
+                        ctx.violate("signature-decoded-differs", "unit", f"characteristic iid {ch_.iid} ({ch_.fmt}): signature unit decoded as {dec.get('unit')!r}, accessory encoded {ch_.unit!r}")
+                    elif dec.get("format") != want.get("format"):
+                        ctx.violate("signature-decoded-differs", "format", f"characteristic iid {ch_.iid}: signature format decoded as {dec.get('format')!r}, accessory encoded {want.get('format')!r}")
+                    elif sorted(dec.get("perms", [])) != sorted(want.get("perms", [])):
+                        ctx.violate("signature-decoded-differs", "perms", f"characteristic iid {ch_.iid}: signature permissions decoded as {dec.get('perms')!r}, accessory encoded {want.get('perms')!r}")
                 for k in sorted(set(want) | set(got)):
                     if k == "unit":
-                        continue  # the entity map built from BLE signatures does not carry the unit (not named by the property for BLE)
+                        continue  # the entity map built from BLE signatures does not carry the unit; the decoded struct is compared above
                     if k in ("minValue", "maxValue", "minStep") and k not in want:
                         continue  # not in the signature: the model may fill in the defaults of the characteristic type
                     if want.get(k) != got.get(k):
